@@ -7,6 +7,19 @@ rnd = sys.argv[2] if len(sys.argv) > 2 else '1'
 props = {json.loads(l)['id']: json.loads(l) for l in open('/verif/properties.jsonl')}
 EXTRA = {
  '1': '',
+ '5': ('\nThis is a FIFTH round with a THEME: well-meant maintenance commits that go subtly wrong.  Each change must look '
+       'like something a linter, a reviewer or a "modernise the code base" pass would suggest -- and be ALMOST behaviour '
+       'preserving: flake8/pylint-style rewrites (`== None` vs `is None`, `if not x` vs `if x is None` / `len(x) == 0`, '
+       'consider-using-in, consider-using-enumerate, unnecessary-else-after-return applied across a loop, simplifiable-if, '
+       'merging nested ifs, replacing a flag variable by for/else or any()/next(), inlining or extracting a variable across a '
+       'statement that changes it, `x = x or default`), exception-handling tidy-ups (a broader or narrower except, try body '
+       'widened), Python-3 modernisation (dict views, `super()`, f-strings dropping a conversion, integer division, '
+       '`sorted`/`set` for de-duplication changing order), default-argument clean-ups, dead-code removal that was not dead, '
+       'loop rewrites that change when a condition is re-evaluated, hoisting a call out of a loop that depended on the loop.  '
+       'Produce THREE changes (A, B and C, in {out}/A, {out}/B, {out}/C), each with a one-line commit message at the top of '
+       'notes.txt that would pass review.  IMPORTANT: never use `git stash` (it is shared between all worktrees of this '
+       'repository); to test against the pristine tree use `git -C <worktree> diff > saved.diff; git -C <worktree> checkout '
+       '-- .` and re-apply with `git apply`.  Keep your individual messages short; write long content to files.\n'),
  '4': ('\nThis is a FOURTH round, and it is CLAUSE-DIRECTED.  First split the property statement into its separate clauses '
        '(sentences, sub-sentences, items of an enumeration, the "in particular" cases).  Then produce THREE changes (A, B and '
        'C, in {out}/A, {out}/B, {out}/C) that each violate a DIFFERENT clause -- prefer the clauses that look least likely to '
